@@ -11,7 +11,7 @@ func init() {
 		e.rep.Rule = "cases = (converter, method, arguments with poison payloads): converters whose fallible extend function (fails exactly on the payload 13 / \"poison\") is reached directly, behind pointers, inside slices, maps, nested structs and slices of pointers to structs, under the three wrapping modes (none, wrapErrors, wrapErrorsUsing with a recording Wrap/Field/Index/Key package); arguments place the poison at varying positions (single and multiple faults; at most one entry per map is relied upon for the order); observed: error or not, the root cause, the recorded path elements; compared with Gv.Eval (wrapErr). non-trivial = the call reaches a fallible function; distinct = (converter, method, arguments)"
 		b, per := 2, 25
 		if e.thorough {
-			b, per = 10, 40
+			b, per = 10*e.scale, 40
 		}
 		fam := func(r *rng.R, id int) *famOut {
 			for {
@@ -39,7 +39,7 @@ func init() {
 		e.rep.Rule = "cases = (converter, method, source): (a) methods with `default FUNC` over the four pointer shapes (T->U, *T->*U, T->*U, *T->U) with constructors returning a value or a pointer, with/without source argument and error result, combined with default:update at converter and method level, ignored fields and useZeroValueOnPointerInconsistency; constructors return a recognisable value (numbers 7, strings \"ctor\"); (b) random structural converters with pointer perturbations, and the PINNED pointer matrix: every pair of T, *T, **T on either side x {top level, struct field, slice element, map value} x inner type {int, struct; thorough: also string, slice, map} x flag on/off. Executed on nil and non-nil sources; compared with Gv.Gen + Gv.Eval. non-trivial = every call; distinct = (converter, method, source)"
 		b, per := 2, 30
 		if e.thorough {
-			b, per = 10, 50
+			b, per = 10*e.scale, 50
 		}
 		if err := runFamilies(e, "C11", "default", famDefault, b, per, 6, nil, nil); err != nil {
 			return err
@@ -47,7 +47,7 @@ func init() {
 		r := e.r.Fork(11)
 		n, pb := 1, 50
 		if e.thorough {
-			n, pb = 6, 100
+			n, pb = 6*e.scale, 100
 		}
 		batches := structuralBatchesOpt(e, r, n, pb, []string{"useZeroValueOnPointerInconsistency"}, "pointer-matrix", false)
 		inners := []string{"int", "PmInner"}
@@ -65,7 +65,7 @@ func init() {
 		e.rep.Rule = "cases = (converter, method, source, target pre-state): update methods (source struct or pointer, either argument order, with or without error result) with the 2^3 zero-value categories set at converter and method level and skipCopySameType; the target instance is pre-filled with recognisable values, the source has zero / non-zero / nil fields; observed: the target instance after the call; compared with Gv.Eval (Body.update, zero checks). non-trivial = every call; distinct = (converter, method, arguments)"
 		b, per := 2, 30
 		if e.thorough {
-			b, per = 10, 50
+			b, per = 10*e.scale, 50
 		}
 		return runFamilies(e, "C10", "update", famUpdate, b, per, 8, nil, nil)
 	}
@@ -73,7 +73,7 @@ func init() {
 		e.rep.Rule = "cases = (converter, method, source): struct pairs whose target fields are fed by goverter:map (renamed field, dotted paths through values and pointers incl. two pointer levels, `.` for the whole source), autoMap, matchIgnoreCase with exact-match preference, ignore and ignoreMissing, on a method that is also reached from sibling methods through slices and pointers (settings must neither leak nor be bypassed); occasionally settings naming fields that do not exist; executed on values with distinct leaves and nil at every pointer of a path; compared with Gv.Gen + Gv.Eval. non-trivial = every call or diagnostic; distinct = (converter, method, source)"
 		b, per := 2, 30
 		if e.thorough {
-			b, per = 10, 50
+			b, per = 10*e.scale, 50
 		}
 		if err := runFamilies(e, "C05", "fields", famFields, b, per, 7, nil, nil); err != nil {
 			return err
@@ -85,7 +85,7 @@ func init() {
 		e.rep.Rule = "cases = (converter, method, value): enum pairs over int, uint8 and string underlying types with duplicate-valued members, mapped by enum:transform regex and enum:map (members and actions), with every enum:unknown policy (@error, @panic, @ignore, a member, missing), in top-level, struct field, slice element and map value positions; executed over member and non-member values; compared with Gv.Gen (outcome) + Gv.Eval (switch semantics). non-trivial = every call or diagnostic; distinct = (converter, method, value)"
 		b, per := 2, 30
 		if e.thorough {
-			b, per = 10, 50
+			b, per = 10*e.scale, 50
 		}
 		return runFamilies(e, "C08", "enum", famEnum, b, per, 8, func(c *k2Call) string { return "" }, nil)
 	}
